@@ -346,6 +346,23 @@ func (c *Ctx) runeSetOf(fd *ast.FuncDecl) (set []int64, ok bool) {
 	}
 	seen := map[int64]bool{}
 	stmts := fd.Body.List
+	// return strings.ContainsRune("<the set>", r)
+	if len(stmts) == 1 {
+		if rs, isRet := stmts[0].(*ast.ReturnStmt); isRet && len(rs.Results) == 1 {
+			if call, isC := stripParens(rs.Results[0]).(*ast.CallExpr); isC && c.calleeName(call) == "strings.ContainsRune" && len(call.Args) == 2 && isParam(call.Args[1]) {
+				if str, isS := c.strConst(call.Args[0]); isS {
+					for _, r := range str {
+						seen[int64(r)] = true
+					}
+					for v := range seen {
+						set = append(set, v)
+					}
+					sort.Slice(set, func(i, j int) bool { return set[i] < set[j] })
+					return set, true
+				}
+			}
+		}
+	}
 	switch {
 	case len(stmts) == 1:
 		// return r == a || r == b ...
